@@ -143,6 +143,24 @@ def mkCluster (conf : List SubSt) (retryMax crossRetry : Int) (algo : Algo) : Op
   | none => none
   | some g => some { subs := C02.isort (·.name) conf, g := g, retryMax := retryMax, crossRetry := crossRetry, algo := algo }
 
+/-! ### backend lists: `BalanceRR.Init` / `BalanceRR.Update` (reached through BackendInit / BackendReload) -/
+
+/-- the backend part of the configuration of one sub-cluster: AddrInfo -> configured weight (keys distinct) -/
+abbrev BConf := List (String × Int)
+
+/-- `BalanceRR.Init(conf)`: weight = current = final = 100 * configured weight, available, no connection -/
+def initBs (conf : BConf) : List Be :=
+  conf.map fun p => { addr := p.1, w := 100 * p.2, cur := 100 * p.2, conn := 0, avail := true, final := 100 * p.2 }
+
+/-- `BalanceRR.Update(conf)`: the old list is walked in order; a backend found in the conf survives with
+    `UpdateWeight` (weight = 100*c; current := 0 if c <= 0; avail, connNum, `final` and slow-start state stay),
+    the others are released; the backends only in the conf are appended as new, marked restarted. -/
+def updateBs (bs : List Be) (conf : BConf) : List Be :=
+  (bs.filterMap fun b => (conf.find? (·.1 == b.addr)).map fun p =>
+      { b with w := 100 * p.2, cur := if p.2 ≤ 0 then 0 else b.cur }) ++
+  (conf.filter fun p => !(bs.any fun b => b.addr == p.1)).map fun p =>
+      { addr := p.1, w := 100 * p.2, cur := 100 * p.2, conn := 0, avail := true, final := 100 * p.2, restart := true }
+
 /-! ### `BalanceGslb.Reload` -/
 
 /-- the Go map `gslb_conf.GslbClusterConf` as an association list (keys distinct) -/
